@@ -1,18 +1,32 @@
 #!/bin/sh
-# tools/seeded.sh [id-substring] : apply each seeded change to /repo, run the quick check(s) of the
-# property it breaks, undo it straight afterwards.  Prints one line per (change, check).
+# tools/seeded.sh [--in-repo] [id-substring]
+# Run the quick check(s) of the property each seeded change breaks against that change.
+# Default: the patch is applied to a scratch copy of /repo (outside /repo and /verif) and the
+# checks run with SISMIC_SRC=<copy>, so nothing else using /repo is disturbed.
+# --in-repo: apply the patch to /repo itself (git apply), run, and undo it straight afterwards.
+# SAVE_REGRESS=1 keeps each shrunk failing case under replays/regress/.
 cd /verif || exit 2
+MODE=copy
+if [ "$1" = "--in-repo" ]; then MODE=repo; shift; fi
 for d in seeded/*${1}*/; do
   id=$(basename "$d")
   props=$(python3 -c "import json,sys; m=json.load(open('$d/meta.json')); print(' '.join(sorted(m['detected_by'])))")
-  if ! git -C /repo apply --check "/verif/$d/patch.diff" 2>/dev/null; then echo "$id: PATCH DOES NOT APPLY"; continue; fi
-  git -C /repo apply "/verif/$d/patch.diff"
+  if [ "$MODE" = repo ]; then
+    if ! git -C /repo apply --check "/verif/$d/patch.diff" 2>/dev/null; then echo "$id: PATCH DOES NOT APPLY"; continue; fi
+    git -C /repo apply "/verif/$d/patch.diff"; SRC=/repo
+  else
+    SRC=$(mktemp -d /tmp/seeded-XXXXXX)
+    rsync -a --exclude .git --exclude __pycache__ /repo/ "$SRC/"
+    if ! (cd "$SRC" && patch -s -p1 < "/verif/$d/patch.diff"); then echo "$id: PATCH DOES NOT APPLY"; rm -rf "$SRC"; continue; fi
+  fi
   for p in $props; do
-    ./check "$p" >/tmp/seeded.$$.out 2>&1; rc=$?
+    SISMIC_SRC="$SRC" ./check "$p" >/tmp/seeded.$$.out 2>&1; rc=$?
     echo "$id $p exit=$rc $(grep -m1 'kind=' /tmp/seeded.$$.out | cut -c1-120)"
+    rp=$(grep -m1 '^VIOLATION' /tmp/seeded.$$.out | sed 's/.*replay=//')
+    if [ -n "$rp" ] && [ -f "$rp" ] && [ -n "$SAVE_REGRESS" ]; then mkdir -p replays/regress; cp "$rp" "replays/regress/$p-$id.json"; fi
   done
-  git -C /repo checkout -- .
+  if [ "$MODE" = repo ]; then git -C /repo checkout -- .; else rm -rf "$SRC"; fi
   rm -f /tmp/seeded.$$.out
 done
 git -C /verif checkout -- evidence 2>/dev/null
-git -C /verif clean -fdqx replays 2>/dev/null
+find replays -maxdepth 1 -name '*.json' -delete 2>/dev/null
